@@ -4,6 +4,7 @@ import (
 	"crypto/sha256"
 	"encoding/hex"
 	"fmt"
+	"os"
 	"sort"
 	"strings"
 	"time"
@@ -45,6 +46,23 @@ type World struct {
 	Log       *EventLog
 	Blocks    int
 	Txs       int
+	// KeepPrints records a byte-exact fingerprint of every block (C20).
+	KeepPrints bool
+	Prints     []string
+	// Noise, when set, is called at ABCI boundaries (before FinalizeBlock and
+	// after Commit) to inject CheckTx / Simulate / query traffic that must
+	// never influence results.
+	Noise func(n *Node, when string)
+	// ForceTime makes the next block of a chain carry exactly this time (clock jump).
+	ForceTime map[string]time.Time
+}
+
+// JumpTo schedules the next block of n at exactly t (must be in the future).
+func (w *World) JumpTo(n *Node, t time.Time) {
+	if w.ForceTime == nil {
+		w.ForceTime = map[string]time.Time{}
+	}
+	w.ForceTime[n.Name] = t
 }
 
 // EventLog is the canonical per-run log; its hash is the run fingerprint.
@@ -131,9 +149,22 @@ func (w *World) TimeOn(n *Node) time.Time { return w.Base.Add(w.Now + w.Skew[n.N
 func (w *World) Block(n *Node, reqs []*TxReq, crash CrashPoint) (*BlockRecord, error) {
 	// every block moves simulated time by 1-6 s plus a non-zero sub-second part
 	w.Tick(time.Second + time.Duration(1+(w.Blocks*37)%977)*time.Millisecond + 137*time.Nanosecond)
+	if w.Noise != nil && !n.Down {
+		w.Noise(n, "before-finalize")
+	}
+	if t, ok := w.ForceTime[n.Name]; ok {
+		// a clock jump to an exact instant (expiry boundaries): align the world clock with it
+		delete(w.ForceTime, n.Name)
+		if d := t.Sub(w.Base) - w.Skew[n.Name]; d > w.Now {
+			w.Now = d
+		}
+	}
 	rec, err := n.ProduceBlock(w.TimeOn(n), reqs, crash)
 	if err != nil {
 		return nil, err
+	}
+	if w.Noise != nil && !n.Down {
+		w.Noise(n, "after-commit")
 	}
 	if rec == nil {
 		w.Log.Add("t=%v %s crash before finalize", w.Now, n.Name)
@@ -155,10 +186,44 @@ func (w *World) Block(n *Node, reqs []*TxReq, crash CrashPoint) (*BlockRecord, e
 	for _, r := range rec.Results {
 		w.Log.Add("  tx %s %s code=%d/%s gas=%d", r.Hash, r.Req.Label, r.Code, r.Space, r.Gas)
 	}
+	if w.KeepPrints {
+		w.Prints = append(w.Prints, BlockPrint(n.Name, rec))
+		if dbg := os.Getenv("VERIF_PRINT_EVENTS"); dbg != "" && dbg == fmt.Sprintf("%s#%d", n.Name, rec.Height) {
+			for _, r := range rec.Results {
+				fmt.Fprintf(os.Stderr, "TX %s code=%d gas=%d\n", r.Req.Label, r.Code, r.Gas)
+				for _, e := range r.Events {
+					fmt.Fprintf(os.Stderr, "  EV %s", e.Type)
+					for _, a := range e.Attributes {
+						fmt.Fprintf(os.Stderr, " %s=%q", a.Key, Short(a.Value, 60))
+					}
+					fmt.Fprintln(os.Stderr)
+				}
+			}
+		}
+	}
 	for _, o := range w.Observers {
 		o.OnBlock(n, rec)
 	}
 	return rec, nil
+}
+
+// BlockPrint is the byte-exact fingerprint of a block's outcome: app hash and
+// for every tx code, codespace, log, gas and all events.
+func BlockPrint(chain string, rec *BlockRecord) string {
+	h := sha256.New()
+	fmt.Fprintf(h, "%s/%d/%x/", chain, rec.Height, rec.AppHash)
+	logOnly := sha256.New()
+	for _, r := range rec.Results {
+		fmt.Fprintf(h, "tx:%d/%s/%d/", r.Code, r.Space, r.Gas)
+		for _, e := range r.Events {
+			fmt.Fprintf(h, "ev:%s/", e.Type)
+			for _, a := range e.Attributes {
+				fmt.Fprintf(h, "%d:%s=%d:%s/%v/", len(a.Key), a.Key, len(a.Value), a.Value, a.Index)
+			}
+		}
+		fmt.Fprintf(logOnly, "%d:%s/", len(r.Log), r.Log)
+	}
+	return fmt.Sprintf("%s#%d app=%x results=%x logs=%x", chain, rec.Height, rec.AppHash, h.Sum(nil)[:12], logOnly.Sum(nil)[:8])
 }
 
 // BlockFromMempool produces a block from (a prefix/subset of) the mempool.
